@@ -211,6 +211,12 @@ def max_depth(synset: 'Synset', simulate_root: bool = False) -> int:
     )
 
 
+def _sort_key(synset: 'Synset') -> tuple[int, str, str]:
+    # inferred synsets and the simulated root all have the same rowid;
+    # the ILI and id make the order total
+    return (synset._id, synset._ili or '', synset.id)
+
+
 def _shortest_hyp_paths(
         synset: 'Synset', other: 'Synset', simulate_root: bool
 ) -> dict[tuple['Synset', int], list['Synset']]:
@@ -246,7 +252,7 @@ def _shortest_hyp_paths(
     # order of the common hypernyms (the list of lowest common
     # hypernyms, the choice among equally short paths, wup) do not vary
     # with set iteration order or with the order of the arguments
-    for ss in sorted(common):
+    for ss in sorted(common, key=_sort_key):
         from_self_subpaths, from_other_subpaths = subpaths[ss]
         shortest_from_self = min(from_self_subpaths, key=len)
         # for the other path, we need to reverse it and remove the pivot synset
@@ -322,7 +328,7 @@ def common_hypernyms(
     from_self = _hypernym_paths(synset, simulate_root, True)
     from_other = _hypernym_paths(other, simulate_root, True)
     common = set(flatten(from_self)).intersection(flatten(from_other))
-    return sorted(common)
+    return sorted(common, key=_sort_key)
 
 
 def lowest_common_hypernyms(
